@@ -173,6 +173,9 @@ v("C09", "deletion-on-the-stop-goroutine", KV, "\t\tdeleted := make(chan struct{
 v("C09", "ondemote-wait-full-timeout", KV, "\t\t\t\tcase <-time.After(time.Until(deadline)):\n\t\t\t\t\tlog.Warn(\"ondemote_callback_timeout\"", "\t\t\t\tcase <-time.After(timeout):\n\t\t\t\t\tlog.Warn(\"ondemote_callback_timeout\"", ["C09-R8", "C09-R3"], "the wait for OnDemote takes the full time-out again")
 v("C01", "discard-without-shutdown-flag", KV, "\tif !e.deleteKeyOnStop.Load() {\n\t\treturn\n\t}\n\tif err := e.deleteRecordAt(rev); err != nil {", "\tif err := e.deleteRecordAt(rev); err != nil {", ["C01-R6"], "a refused acquisition deletes its record although no shutdown asked for it")
 v("C02", "claim-published-first", KV, "\te.state.Store(StateLeader)\n\te.isLeader.Store(true)\n", "\te.state.Store(StateLeader)\n", ["C02-R5"], "the claim is stored before the term's token and revision", also=[("\te.leaderID.Store(e.cfg.InstanceID)\n\te.token.Store(token)\n", "\te.isLeader.Store(true)\n\te.leaderID.Store(e.cfg.InstanceID)\n\te.token.Store(token)\n")])
+v("C07", "revision-published-after-claim", KV, "\te.revision.Store(rev)\n\tnow := time.Now()", "\tnow := time.Now()", ["C07-R8"], "the term's revision is stored after the claim: a late event of the predecessor passes the watcher's filter", also=[("\te.state.Store(StateLeader)\n\te.isLeader.Store(true)\n", "\te.state.Store(StateLeader)\n\te.isLeader.Store(true)\n\te.revision.Store(rev)\n")])
+v("C17", "convert-before-clamp", RT, "\tbackoff := float64(cfg.InitialBackoff) * math.Pow(cfg.BackoffMultiplier, float64(attempt))\n", "\tbackoff := float64(time.Duration(float64(cfg.InitialBackoff) * math.Pow(cfg.BackoffMultiplier, float64(attempt))))\n", ["C17-R4"], "the exponential term is converted to an integer duration before the clamp (seed C17-1 on the current tree)")
+v("C08", "stop-returns-before-ondemote", KV, "\tif wasLeader && hasOnDemote {\n\t\tlog := e.getLogger()\n\t\tlog.Info(\"leader_demoted\",\n\t\t\tappend(e.logWithContext(ctx),\n\t\t\t\tzap.String(\"reason\", \"stop_with_context\"),", "\tif opts.DeleteKey && !opts.WaitForDemote {\n\t\treturn nil\n\t}\n\tif wasLeader && hasOnDemote {\n\t\tlog := e.getLogger()\n\t\tlog.Info(\"leader_demoted\",\n\t\t\tappend(e.logWithContext(ctx),\n\t\t\t\tzap.String(\"reason\", \"stop_with_context\"),", ["C08-R2"], "an early successful return of StopWithContext skips OnDemote (seed C08-2 on the current tree)")
 # ---- C19
 v("C19", "demotion-does-not-cancel", KV, "\tif e.termCancel != nil {\n\t\te.termCancel()\n\t\te.termCancel = nil\n\t}\n", "", ["C19-R1"], "demotion no longer cancels the term context")
 v("C19", "promotion-context-from-background", KV, "promoteCtx, cancel := context.WithCancel(termCtx)", "_ = termCtx\n\t\t\tpromoteCtx, cancel := context.WithCancel(context.Background())", ["C19-R1"], "the promotion context is detached from the term")
